@@ -281,7 +281,9 @@ PROPS = {
                        'C06_stuck_without_handler_return_cancel',
                        'C06_stuck_without_ctx_cancel',
                        'C06_closeSend_guard_leak',
-                       'C06_shutdown_needs_conn_close'],
+                       'C06_shutdown_needs_conn_close',
+                       'C06_stuck_behind_blocked_send', 'C06_stuck_behind_blocked_send_i', 'C06_unstall_resumes',
+                       'C06_cancel_unblocks_blocked_send', 'C06_quiescent_ended_done_iff_not_blocked', 'C06_cancel_ends_together_even_stalled'],
  'rule': 'traces of pass-through stream ops against the real adminServiceProxyServer.StreamWorkflowReplicationMessages -> handleStream -> '
          'StreamForwarder.Run (default mode and LCM mode with valid shard ids) inside a testing/synctest bubble with queue-based fake source '
          '(AdminServiceClient + client stream) and initiator (server stream): one op line = a burst of events (src msg/eof/err/unknown, ini '
@@ -295,7 +297,12 @@ PROPS = {
          'before their ending, after any ending: returned, CloseSend attempted, context cancelled, no goroutine left; nothing relayed after return. '
          'A trace is non-trivial when it contains an ending; distinct by op list. Excluded environments (corpus/C06/excluded_env.json: CloseSend '
          'blocking > 1 s, no server-stream cancel on return, Recv deaf to cancellation, shutdown without closing the client connection, open '
-         'failure) are replayed for model correspondence only.',
+         'failure) are replayed for model correspondence only. A PEER THAT STOPS READING (events `stall s|i` / `unstall s|i`: the relay loop towards '
+         'it blocks in Send, as under gRPC flow control; a cancelled context makes the Send return) is part of the op language and the model: family '
+         'of 160 traces (stall, fill, every ending kind, tick, traffic, unstall); stuck-while-stalled states are attributed to the recorded finding '
+         'C06-blocked-send-hides-ending, after `unstall` everything must end together. Real gRPC scenario e2e-stalled-initiator (64 KiB windows, the '
+         'initiator does not read, the source sends until its Send blocks and ends): demonstration of the finding on the real transport + end-together '
+         'after the initiator reads again.',
  'assumptions': ["GrpcStreamEnv: cancelling the outgoing context makes the client stream's Recv return an error; gRPC cancels the server stream's "
                  'context when the handler returns (emulated by the harness); CloseSend returns before its 1 s guard (grpc-go never blocks there). '
                  'NOT assumed: that the source answers the half-close.',
